@@ -94,10 +94,12 @@ PointGetDegree(d) ==
               HM(d \in pcm))
     /\ UNCHANGED <<Ldeg, Ideg, cc, hamsys, deg0>>
 
-\* cm.save(path); CenterManifold.load(path): _degree restored onto a rebuilt service
+\* cm.save(path); CenterManifold.load(path): _degree restored onto a rebuilt service (empty cache, no _hamsys).
+\* __getstate__ evaluates every property of the dynamics service of the object being SAVED (hamsys, pipeline, ...):
+\* the first memoised call it makes is get_or_create(("pipeline", degree)); that object is then left behind.
 SaveLoad ==
     /\ cc' = {} /\ hamsys' = <<>>
-    /\ Record("SaveLoad", <<>>, <<"none">>, <<"none">>, "-")
+    /\ Record("SaveLoad", <<>>, <<"none">>, <<"none">>, HM(Has(cc, PipeKey(Ideg))))
     /\ UNCHANGED <<Ldeg, Ideg, pcm, deg0>>
 
 Next == \/ \E d \in Degrees : SetDegree(d) \/ Hamiltonian(d) \/ PointGetDegree(d)
